@@ -266,3 +266,109 @@ class TimeItScope(_TlsContract):
     st = self.store(interp)
     k = z3.StringVal(_TIMING_KEY)
     return z3.And(z3.Select(st.has, k), z3.Select(st.val, k) == st.vid(interp, self._cm))
+
+
+# ---------------------------------------------------------------------------
+# pg.view_options: a scope over a *stack* of option dicts.  Frame kernel: the
+# options of the enclosing scope are never written -- the scope pushes exactly
+# one object, the result of the deep merge `utils.merge([parent, kwargs])` (a
+# fresh dict: the merge is A-MERGE-FRESH, checked by the bounded driver), the
+# enclosing scope's dict is handed to nothing but that merge, the yielded
+# options are the pushed ones, and the exit -- normal or by exception -- pops
+# exactly once.  An "optimised" merge that copies the enclosing dict shallowly and
+# updates nested dicts in place hands the parent to something else and fails.
+
+from pyglove.core.views import base as _views_base
+from pyglove.core import utils as _utils
+from pyvc.contracts import direct as _direct
+
+VB = 'pyglove.core.views.base'
+
+
+@register
+class ViewOptionsScope(CMContract):
+  prop = 'C17'
+  target = f'{VB}:view_options'
+
+  def inputs(self, b):
+    return dict(enable_summary_tooltip=SAny('kw0', label='kwarg'), extra_flags=SAny('kw1', label='kwarg')), {}
+
+  def setup_policy(self, policy):
+    ev = lambda interp, what, data=None: interp.path.event('scope', what, data)
+
+    def peek(interp, args, kwargs, frame):
+      ev(interp, 'peek', interp.resolve(args[0]))
+      return SAny('parent_options', label='parent')
+
+    def merge(interp, args, kwargs, frame):
+      parts = [interp.resolve(x) for x in (interp.iterate(args[0], frame) or [])]
+      ev(interp, 'merge', parts)
+      return SAny('merged', label='merged')
+
+    def push(interp, args, kwargs, frame):
+      ev(interp, 'push', (interp.resolve(args[0]), interp.resolve(args[1])))
+
+    def pop(interp, args, kwargs, frame):
+      ev(interp, 'pop', interp.resolve(args[0]))
+      return SAny('popped')
+    policy.handlers[id(_utils.thread_local_peek)] = peek
+    policy.handlers[id(_utils.merge)] = merge
+    policy.handlers[id(_utils.thread_local_push)] = push
+    policy.handlers[id(_utils.thread_local_pop)] = pop
+
+    def call_opaque(interp, fn, args, kwargs, frame):
+      # any method of the enclosing scope's dict, of the caller's kwargs values or of the merged dict
+      ev(interp, 'touch', (fn.label, fn.tag))
+      return SAny(fn.tag + '()', label=fn.label)
+    policy.handlers[('call_opaque',)] = call_opaque
+    import builtins
+
+    def dict_h(interp, args, kwargs, frame):
+      if args and isinstance(interp.resolve(args[0]), SAny):
+        v = interp.resolve(args[0])
+        ev(interp, 'touch', (v.label, 'dict(%s)' % v.tag))
+        return SAny('dict(%s)' % v.tag, label=v.label)
+      from pyvc import axioms
+      return axioms.call_builtin_type(interp, dict, args, kwargs, frame)
+    policy.handlers[id(builtins.dict)] = dict_h
+
+  def _scope(self, interp):
+    return [(e.what, e.data) for e in interp.path.events if e.kind == 'scope']
+
+  @_direct
+  def inside_pushed_exactly_the_fresh_merge_of_parent_and_arguments(self, interp, env):
+    evs = self._scope(interp)
+    kinds = [k for k, _ in evs]
+    if kinds != ['peek', 'merge', 'push']:
+      return False
+    parts = evs[1][1]
+    ok_merge = len(parts) == 2 and getattr(parts[0], 'label', None) == 'parent' \
+        and set(getattr(parts[1], 'items', parts[1])) == {'enable_summary_tooltip', 'extra_flags'}
+    key_peek, (key_push, pushed) = evs[0][1], evs[2][1]
+    entered = interp.resolve(env['entered'])
+    return ok_merge and key_peek == key_push and getattr(pushed, 'label', None) == 'merged' and entered is pushed
+
+  @_direct
+  def exit_popped_once_parent_never_touched(self, interp, env):
+    evs = self._scope(interp)
+    kinds = [k for k, _ in evs]
+    return kinds == ['peek', 'merge', 'push', 'pop'] and evs[3][1] == evs[2][1][0]
+
+  def replay(self, obligation, m):
+    bad = []
+    with pg.view_options(extra_flags=dict(a=1), x=1) as outer:
+      before = pg.to_json_str(pg.Dict(outer).clone(deep=True))
+      try:
+        with pg.view_options(extra_flags=dict(b=2)) as inner:
+          if inner.get('extra_flags') != dict(a=1, b=2):
+            bad.append(f'inner scope sees {inner!r}')
+          raise RuntimeError()
+      except RuntimeError:
+        pass
+      after = pg.to_json_str(pg.Dict(outer).clone(deep=True))
+      if before != after:
+        bad.append(f'options of the outer scope changed by the inner one: {before} -> {after}')
+    with pg.view_options() as none_left:
+      if none_left:
+        bad.append(f'options still in force after both scopes were left: {none_left!r}')
+    return dict(outcome='reproduced' if bad else 'not-reproduced', detail='; '.join(bad) or 'outer options untouched, nothing left behind')
